@@ -23,16 +23,23 @@ CHECKS = {
          "is untouched; C02_slice_list_partition, C02_omp_parts_partition; the work-queue transition system: for every "
          "schedule no thread blocks in get() (C02_queue_never_blocks), items are conserved and each is worked exactly once "
          "(C02_queue_exactly_once, C02_queue_all_done_all_items), every run ends within 5*items+3*threads moves "
-         "(C02_queue_terminates), with the unlocked contrast refuted. Partial: real preemption, the GIL, libgomp and the "
-         "memory model are observed (amplified runs + deadline), not modelled.",
-         "5 C02", "Coq proof (interleaving/row-locality, queue invariant, termination measure) + amplified differential runs"),
+         "(C02_queue_terminates), with the unlocked contrast refuted; the product machine of queue protocol and per-item work "
+         "loops (QueueTrace): for every schedule the performed actions are per item a prefix of its program order, with all "
+         "threads done they form an interleaving (C02_workers_trace_interleaving), bounded work (C02_workers_terminate), and "
+         "end to end C02_threading_workers_end_to_end / C02_openmp_workers_end_to_end: whatever the schedule of the threads' "
+         "steps, the memory holds the sequential result. Correspondence X-sched-det: the real worker loop of ndl.ndl driven "
+         "turn by turn by chosen schedules, step-aligned with the Coq machine (model 205). Partial: real preemption, the GIL, "
+         "libgomp and the memory model are observed (amplified runs + deadline), not modelled.",
+         "5 C02", "Coq proof (interleaving/row-locality, queue invariant, product machine, termination measure) + schedule-controlled step-aligned correspondence + amplified differential runs"),
  "C03": ("proof", "Theorems C03_learn_split, C03_chain (any k-way split = one pass, by induction on the chain), "
          "C03_dict_run_app / C03_dict_continue (dict_ndl from any weights it can be handed, lazily created rows), "
          "C03_kernel_continue / C03_kernel_from_any_weights (the kernel computes learn from ANY initial memory), "
          "C03_labelling_irrelevant (old labels first, new ones appended in any order: any injective numbering gives the same "
          "name-level weights). Correspondence X-continue: chains over all legal hand-overs and split positions vs the model "
          "of the whole sequence. Non-mutation of the weights argument is an aliasing fact: monitored on every chain step, "
-         "not proved. WH flavours: see C08.",
+         "not proved. Widrow-Hoff: C03_wh_{r2r,r2b,b2r}_chain and C03_wh_*_kernel_continue (the three flavours, rule and "
+         "kernel models); alignment of handed-over weights by dimension name is exercised by WH chains with permuted "
+         "vector tables (C03 and C08).",
          "5 C03", "Coq proof (fold/append, refinement from arbitrary start state) + chained differential runs + argument snapshots"),
  "C07": ("proof", "Theorems C07_split_join / C07_join_split / C07_join_nil_is_empty_name, C07_read_write (+_slice, _container): "
          "parse_file (write_file c es) = es for both values of compatible and every container form; C07_frequency (+_copies, "
@@ -46,11 +53,13 @@ CHECKS = {
          "vectors or lambda*presence with betas) on exactly the trained rows, for every ring, table, eta; C08_*_any_schedule: "
          "for ANY partition of the rows and ANY interleaving (generic row-wise theory RowWise.v). The numpy method and dict_wh "
          "are compared with the same model on single-cue/single-outcome events. Correspondence X-wh incl. same-flavour "
-         "continuation chains (the WH half of C03).",
+         "continuation chains (also with permuted dimension columns; the WH half of C03). C08_*_workers_end_to_end: the "
+         "worker threads of the parallel region produce such an interleaving for every schedule.",
          "5 C08", "Coq proof (generic row-local kernels, interleaving theorem) + exact-rational differential correspondence"),
  "C14": ("proof", "Theorems C14_b2r_onehot / C14_r2b_onehot / C14_r2r_onehot: with one-hot tables given by injective maps the "
          "Widrow-Hoff rule read through the dimension renaming equals RWSpec.learn with alpha=1, beta1=beta2=eta, lambda=1 "
-         "(cue repetitions allowed, outcomes unique per event - the necessity of that hypothesis is shown by an example). The "
+         "(cue repetitions allowed, outcomes unique per event - the necessity of that hypothesis is shown by an example); "
+         "C14_{b2r,r2b,r2r}_kernels_agree: the same between the loop-faithful kernel models on flat memory. The "
          "check compares wh.wh against ndl.ndl on the same file (real code on both sides, all flavours/methods/row orders, "
          "> 10 chunks) and runs reduced X-wh / X-rw correspondences through which the theorems transfer.",
          "5 C14", "Coq proof (one-hot sums, induction on events) + wh-vs-ndl runs of the real code + reduced correspondences"),
@@ -112,10 +121,12 @@ CHECKS = {
          "C04_protocol_terminates; in particular for exact multiples, whose pre-repair logic is proved to hang for every "
          "schedule: C04_exact_multiple_hangs); chunk k holds exactly events k*per..(k+1)*per-1 (C04_job_file), chunks in "
          "numeric order concatenate to the file (C04_chunks_concat), int(str(i)) = i and the numeric sort restores the order "
-         "from any directory listing while the lexicographic one fails from 11 chunks on. Correspondence X-chunk with "
+         "from any directory listing while the lexicographic one fails from 11 chunks on. Correspondence X-proto-det: the real "
+         "submit loop, jobs and callbacks driven entry by entry by chosen schedules, step-aligned with Proto.pstep (model "
+         "402); correspondence X-chunk with "
          "permuted completion order, amplified submit/close race, frequency columns, deadline. Partial: real timing is "
          "a deadline.",
-         "5 C04", "Coq proof (protocol invariant + termination measure over all schedules, window/concat lemmas) + differential runs under a deadline"),
+         "5 C04", "Coq proof (protocol invariant + termination measure over all schedules, window/concat lemmas) + schedule-controlled step-aligned correspondence + differential runs under a deadline"),
  "C18": ("proof", "Theorems C18_cov_identity, C18_pearson / C18_pearson_r2 (square-root free characterisation of Pearson's r over "
          "the rationals: no real-number axioms), C18_cell_local, C18_omp_chunks_partition, C18_schedule_independent (every cell "
          "written exactly once for every chunk size, thread count and interleaving), C18_degenerate (+_which, zero/NaN "
@@ -133,10 +144,13 @@ CHECKS = {
          "submissions and deliveries: the finished call raises), C05_conversion_fault_terminates (bounded work and progress: it "
          "never blocks), C05_thread_errors_raised (worker-thread exceptions are raised by the call), C05_failed_phase_raises / "
          "C05_returns_only_if_all_phases_ok, C05_dict_duplicate_raises, with the pre-repair logic refuted "
-         "(C05_error_in_handler_blocks_refuted, C05_thread_errors_swallowed_refuted). Correspondence X-fault: 8 learners x fault "
+         "(C05_error_in_handler_blocks_refuted, C05_thread_errors_swallowed_refuted); the worker-thread machine with failing "
+         "actions (QueueFaults): for every schedule C05_threading_returns_only_if_no_failure, C05_threading_failure_raises, "
+         "C05_threading_faults_terminate. Correspondences X-sched-det / X-proto-det (failing kernel calls / failing conversion "
+         "jobs under chosen schedules, step-aligned with the Coq machines); correspondence X-fault: 8 learners x fault "
          "kinds x positions x swept byte budgets under a deadline. Partial: 'bounded time' is a step bound in the model and a "
          "deadline in the run; the Pool/thread semantics are assumptions validated by the runs.",
-         "5 C05", "Coq proof (protocol invariant under faults, termination measure) + fault injection runs under a deadline"),
+         "5 C05", "Coq proof (protocol invariant under faults, worker machine with failing actions, termination measures) + schedule-controlled step-aligned correspondence + fault injection runs under a deadline"),
  "C17": ("proof", "Theorems C17_bracket_restores (a TemporaryDirectory block restores the file system for every body and every "
          "failure point), C17_learner_clean (generator input: spool and chunk directories, both stages, every failure point), "
          "C17_generator_leaks_refuted (pre-repair). Correspondence X-tmp: the whole C05 call matrix incl. generator input and "
